@@ -79,13 +79,12 @@ fn masks(ctx: &mut Ctx) {
 fn helpers(ctx: &mut Ctx) {
     if !ctx.mine(1) { return; }
     let mut rng = ctx.rng(0x18);
-    let mut values: Vec<usize> = Vec::new();
+    // The edges of the documented domains first (a leg that stops on its operation budget still reaches them).
+    let mut values: Vec<usize> = vec![usize::MAX, usize::MAX - 1, usize::MAX - 6, usize::MAX - 7, usize::MAX - 8, usize::MAX - 62, usize::MAX - 63, usize::MAX - 64, usize::MAX - 127, usize::MAX / 8, usize::MAX / 8 + 1, usize::MAX / 64, usize::MAX / 64 + 1, 0, 1, 7, 8, 9, 63, 64, 65];
     for p in 0..64u32 {
         for d in [-1i64, 0, 1] { values.push((1u64 << p).wrapping_add(d as u64) as usize); }
     }
     for _ in 0..ctx.size(2000, 50000) { values.push(rng.magnitude(64) as usize); }
-    values.push(usize::MAX); values.push(usize::MAX - 1); values.push(usize::MAX - 6); values.push(usize::MAX - 7); values.push(usize::MAX - 8);
-    values.push(usize::MAX - 62); values.push(usize::MAX - 63); values.push(usize::MAX - 64);
     for &n in &values {
         if !ctx.begin_case() { continue; }
         let n128 = n as u128;
@@ -175,8 +174,37 @@ fn read_write(ctx: &mut Ctx) {
                     ctx.expect_eq("bits.read_int", || format!("read_int(offset {}, width {})", o2, w2), &guard(|| unsafe { bits::read_int(&array, o2, w2) }), &exp);
                 }
             }
+            // Backgrounds in which every word is, independently, empty / full / random / a single bit (so that a field's
+            // first word can be busy while its second word is empty, and the other way round), and short histories of
+            // writes to the same and to neighbouring fields of one array, compared with the model after every write.
+            for k in 0..(if ctx.quick() { 10 } else { 40 }) {
+                let mut array: Vec<u64> = (0..4).map(|w| match (k + w * 7 + rng.below(4)) % 4 { 0 => 0u64, 1 => !0u64, 2 => rng.next_u64(), _ => 1u64 << rng.below(64) }).collect();
+                let mut model = to_bits(&array);
+                let writes = 1 + rng.below(4);
+                let mut log: Vec<(usize, u64, usize)> = Vec::new();
+                for j in 0..writes {
+                    // The same field again, the field right behind it, or the field right before it.
+                    let (o, w) = match if j == 0 { 0 } else { rng.below(4) } { 0 | 1 => (offset, width), 2 if offset + 2 * width <= 256 => (offset + width, width), 3 if offset >= width => (offset - width, width), _ => (offset, width) };
+                    let value: u64 = match rng.below(6) { 0 => 0, 1 => !0u64, 2 => rng.next_u64() & 0xFF, 3 => 1u64 << rng.below(w), 4 => rng.next_u64() & rng.next_u64(), _ => rng.next_u64() };
+                    log.push((o, value, w));
+                    for i in 0..w { model[o + i] = (value >> i) & 1 == 1; }
+                    if let Err(p) = guard(|| unsafe { bits::write_int(&mut array, o, value, w); }) {
+                        ctx.violation("bits.write_int!panic", format!("write_int history {:?} panicked: {}", log, p));
+                        break;
+                    }
+                    ctx.checks += 1;
+                    let after = to_bits(&array);
+                    if after != model {
+                        let diff: Vec<usize> = (0..256).filter(|i| after[*i] != model[*i]).collect();
+                        ctx.violation("bits.write_int.history", format!("after the writes (offset, value, width) {:x?} on a 4-word array with mixed words: bits {:?} differ from the bit-array model", log, diff));
+                        break;
+                    }
+                    let truncated = if w == 64 { value } else { value & ((1u64 << w) - 1) };
+                    ctx.expect_eq("bits.read_int.history", || format!("read_int(offset {}, width {}) after the writes {:x?}", o, w, log), &guard(|| unsafe { bits::read_int(&array, o, w) }), &truncated);
+                }
+            }
             ctx.case(hash64(&[5, offset as u64, width as u64]), true);
-            ctx.sample(|| format!("rw: offset={} width={} x {} values x 3 backgrounds on a 4-word array, all 256 bits compared", offset, width, nvalues));
+            ctx.sample(|| format!("rw: offset={} width={} x {} values x 3 backgrounds on a 4-word array, all 256 bits compared; plus mixed-word backgrounds with histories of 1-4 writes to the same and neighbouring fields", offset, width, nvalues));
         }
     }
     ctx.note("cov.rw_exhaustive_offsets_widths", format!("{}", exhaustive));
